@@ -109,7 +109,14 @@ def check_C01(tier, seed, res, replay=None):
         raise vlib.Broken("the Layer-0 oracle TA.tla fails its self-check (%s)" % m["log"])
     # Layer 2: the upward antichain algorithm for every pair of the bound and EVERY work-list order
     model_with_mutants(res, "InclUp.tla", "InclUp3.cfg" if tier == "thorough" else "InclUp.cfg",
-                       ["RevSubsume", "NoFinalCheck", "UnionChildren"] if tier == "thorough" else [], "InclUp")
+                       ["RevSubsume", "NoFinalCheck", "UnionChildren", "FirstPosOnly"] if tier == "thorough" else [], "InclUp")
+    # ... and the downward algorithm (workset of hypotheses, nonIncl antichain, per-frame childrenCache), two iteration orders
+    model_with_mutants(res, "InclDown.tla", "InclDown3.cfg" if tier == "thorough" else "InclDown.cfg",
+                       ["LeafAsWritten", "HypAsFact"] if tier == "thorough" else [], "InclDown")
+    if tier == "thorough":
+        for cfg in ("InclUpLeaf3.cfg",):
+            model_with_mutants(res, "InclUp.tla", cfg, [], "InclUp")
+        model_with_mutants(res, "InclDown.tla", "InclDownCyc3.cfg", [], "InclDown")
 
 
 def agreement_arm(res, rd, tier, seed):
